@@ -65,7 +65,7 @@ CATS = [
 USER_CATS = ("U8or16", "FloatRe")
 DIMS = ["", "a b", "_ a", "... a", "*v 3", "#a", "a+1", "x=3"]
 FLAT_TYPES = ["nd", "duck", "any", "union"]
-INNER_DIMS = ["a", "_", "..."]
+INNER_DIMS = ["a", "_", "...", "x"]  # "x": the same bare name as the documentation name in the outer "x=3"
 # categories used on inner levels in the quick tier (every narrowing direction:
 # any-dtype, superset, subset, disjoint, precision, regex)
 INNER_CATS_QUICK = ["Shaped", "Num", "Float", "Integer", "Int32", "FloatRe"]
